@@ -164,11 +164,13 @@ def run(tier):
     run = Run(PROP, tier, 'other')
     spec_selfcheck()
     h = build()
+    msyn = h.monomorphise(['f32', 'f64'], bound='<S: BaseFloat>', method_syntax='only', soft=True)
     S, inv, meta = facts.extract(PROP, h.src())
-    report_dropped(run, meta)
+    report_dropped(run, meta, h)
     run_specs(run, S, h, custom={'interp': check_interp})
     run.floor('roots', len(run.roots), len(h.specs))
     run.assumed.update(A.CTX.assumed)
+    run.notes['monomorphic_method_syntax_roots'] = len([n_ for n_ in msyn if n_ in run.roots])
     return run.finish(
         explanation='lerp of every VectorSpace impl (Vector1..4, Matrix2..4, Quaternion) equals a + (b - a)t (and a, b at t = 0, 1 on the composed code). nlerp: the outcome tree splits on dot(a,b) against 0; the negative side returns normalize(a(1-t) - b t), the other normalize(a(1-t) + b t). slerp: after the same sign normalisation a threshold test of the non-negative dot product against exactly 0.9995; above it the nlerp form with the already-flipped b, below it normalize(a sin(theta(1-t)) + b\' sin(theta t)) with theta = acos(clamp(dot\')). Leaves whose comparison outcomes contradict each other on the same quantity are discarded by an interval domain. Unit length, the plane of a and b, the endpoints, the shorter arc and constant angular speed of the trigonometric leaf follow from these closed forms (textbook slerp).',
         trusted_base=['rustc nightly type checking / trait resolution / MIR construction', 'mirsum abstract interpreter', 'rules/algebra.py (radical normal form)', 'sin/acos/min/max as uninterpreted symbols; textbook slerp identities'],
